@@ -14,3 +14,4 @@ import PasskeyVerif.Props.C09
 import PasskeyVerif.Props.C07
 import PasskeyVerif.Props.C06
 import PasskeyVerif.Props.C17
+import PasskeyVerif.Props.C18
